@@ -652,7 +652,7 @@ Example c17_nonvacuous :
       length rs = 2 /\
       map rs_styles rs =
         [ [mksd (SColour 255 0 0) true];
-          [mksd SDisplayNone false; mksd (SWhiteSpace WsPre) false] ]%N
+          [mksd (SDisplay true) false; mksd (SWhiteSpace WsPre) false] ]%N
   | _ => False
   end.
 Proof. vm_compute. split; reflexivity. Qed.
